@@ -864,6 +864,28 @@ class C17(E2EProp):
         ui.check_histories(rng, tier, report)
         ui.check_batched(rng, tier, report)
 
+class C18(E2EProp):
+    id = "C18"; module = "Adsb.Theorems.C18"; design_ref = "5/C18"
+    deps = []
+    rule = ("radar under a pty (40x140 / 50x160): feeds of 0-8 aircraft in the four quadrants around the receiver (positions, identifications, velocities, "
+            "other formats, malformed lines) with random view controls (keys, clicks, drags, scrolls - everything but quit) interleaved; then the Airplanes "
+            "tab is read cell by cell and compared with the tracker model's records after the same frames (address, callsign, lat, long, heading, altitude, "
+            "fpm, speed, distance, message count; blank until a position is known), the tab / table titles with the record count, the Stats tab with the "
+            "model's totals; an aircraft expiring and returning (total 4, most 3, shown 2); Map tab with 11 named locations (receiver, N/E/S/W at two "
+            "distances, NE, SW) and 4 aircraft: each label's screen cell against to_xy of the model for the view state the model predicts after zoom / pan / "
+            "scroll / reset batches, plus the conventions stated outright (receiver at the centre, north above, east right, doubled offset = doubled "
+            "distance); non-trivial = distinct scenarios")
+    claim = ("rows = records in order, cells = the record's data, title = count, totals = times newly added / peak count, data independent of every "
+             "operator action (theorems over the loop model); table, titles, totals and label placement of the real binary agree with the model")
+    note = ("partial: number formatting ({:.3}), ratatui's Table / Canvas widgets and the f64 evaluation of the Mercator formula are observed on the "
+            "screen (cell tolerance 1), not proved; the order / sign theorems of the projection over the reals are in Adsb/Theorems/C18Proj.lean when built")
+    def scenarios(self, rng, tier, report):
+        import show
+        show.check_table_and_stats(rng, tier, report)
+        show.check_stats_expiry(rng, tier, report)
+        show.check_map(rng, tier, report)
+        show.check_map_aircraft(rng, tier, report)
+
 class C19(Prop):
     id = "C19"; module = "Adsb.Theorems.C19"; design_ref = "5/C19"
     deps = ["shape:ReaderCrc::read", "shape:ReaderCrc::seek", "shape:Frame::from_reader", "shape:Frame::read_crc"]
@@ -966,5 +988,5 @@ class C01(Prop):
     def nontrivial(self, op, line): return line.startswith(("OK", "TXT", "VEL some", "POS some", "ADDED"))
 
 ALL = {}
-for c in [C01, C02, C03, C04, C05, C06, C07, C08, C09, C10, C11, C12, C13, C14, C15, C16, C17, C19, C20]:
+for c in [C01, C02, C03, C04, C05, C06, C07, C08, C09, C10, C11, C12, C13, C14, C15, C16, C17, C18, C19, C20]:
     ALL[c.id] = c
